@@ -1,0 +1,131 @@
+// Verification-only instrumentation for xargs, compiled only with the cargo
+// feature `verif-hooks`. Nothing in here is reachable from a default build.
+//
+// H1 `read_args`          run the private argument readers over a caller-supplied `Read`
+// H2 `HookedCommand`      lets a harness answer `Command::status()` (child outcome injection)
+// H3 `observe`            read-only snapshot of the batching state after every accepted argument
+
+use std::cell::RefCell;
+use std::ffi::OsString;
+use std::io::{self, Read};
+use std::ops::{Deref, DerefMut};
+use std::process::{Command, ExitStatus};
+
+use super::{
+    ArgumentKind, ArgumentReader, ByteDelimitedArgumentReader, CommandBuilder, CommandResult,
+    WhitespaceDelimitedArgumentReader,
+};
+
+/// Which of the two private readers to run.
+pub enum ReaderKind {
+    Whitespace,
+    Byte(u8),
+}
+
+/// H1: run a reader to exhaustion. Each item is (argument bytes, hard-terminated?).
+pub fn read_args(kind: ReaderKind, rd: Box<dyn Read>) -> Result<Vec<(Vec<u8>, bool)>, String> {
+    use std::os::unix::ffi::OsStrExt;
+    let mut reader: Box<dyn ArgumentReader> = match kind {
+        ReaderKind::Whitespace => Box::new(WhitespaceDelimitedArgumentReader::new(rd)),
+        ReaderKind::Byte(d) => Box::new(ByteDelimitedArgumentReader::new(rd, d)),
+    };
+    let mut out = vec![];
+    loop {
+        match reader.next() {
+            Ok(Some(a)) => out.push((
+                a.arg.as_bytes().to_vec(),
+                a.kind == ArgumentKind::HardTerminated,
+            )),
+            Ok(None) => return Ok(out),
+            Err(e) => return Err(e.to_string()),
+        }
+    }
+}
+
+/// What the harness sees of a command about to be run.
+pub struct Invocation {
+    pub program: OsString,
+    pub args: Vec<OsString>,
+}
+
+pub type StatusHook = Box<dyn FnMut(&Invocation) -> Option<io::Result<ExitStatus>>>;
+
+thread_local! {
+    static STATUS_HOOK: RefCell<Option<StatusHook>> = const { RefCell::new(None) };
+    static OBSERVER: RefCell<Option<Box<dyn FnMut(Snapshot)>>> = const { RefCell::new(None) };
+}
+
+/// Install (or clear) the H2 hook for the current thread. The hook returns `None`
+/// to let the real `Command::status()` run.
+pub fn set_status_hook(h: Option<StatusHook>) {
+    STATUS_HOOK.with(|c| *c.borrow_mut() = h);
+}
+
+/// Install (or clear) the H3 observer for the current thread.
+pub fn set_observer(o: Option<Box<dyn FnMut(Snapshot)>>) {
+    OBSERVER.with(|c| *c.borrow_mut() = o);
+}
+
+/// H2: wrapper that shadows the local `command` in `CommandBuilder::execute`.
+/// Everything except `status()` goes to the wrapped `Command` via `Deref`.
+pub struct HookedCommand(pub Command);
+
+impl Deref for HookedCommand {
+    type Target = Command;
+    fn deref(&self) -> &Command {
+        &self.0
+    }
+}
+
+impl DerefMut for HookedCommand {
+    fn deref_mut(&mut self) -> &mut Command {
+        &mut self.0
+    }
+}
+
+impl std::fmt::Debug for HookedCommand {
+    fn fmt(&self, f: &mut std::fmt::Formatter<'_>) -> std::fmt::Result {
+        self.0.fmt(f)
+    }
+}
+
+impl HookedCommand {
+    pub fn status(&mut self) -> io::Result<ExitStatus> {
+        let answer = STATUS_HOOK.with(|c| {
+            c.borrow_mut().as_mut().and_then(|h| {
+                h(&Invocation {
+                    program: self.0.get_program().to_owned(),
+                    args: self.0.get_args().map(|a| a.to_owned()).collect(),
+                })
+            })
+        });
+        match answer {
+            Some(r) => r,
+            None => self.0.status(),
+        }
+    }
+}
+
+/// H3: state of the batch under construction.
+#[derive(Clone, Debug, PartialEq, Eq, Hash)]
+pub struct Snapshot {
+    /// (kind letter, current, max) of every limiter in chain order.
+    pub limiters: Vec<(u8, usize, usize)>,
+    /// Byte lengths of the arguments accepted into the current batch.
+    pub extra_arg_lens: Vec<usize>,
+    pub have_pending_command: bool,
+    pub failed: bool,
+}
+
+pub(super) fn observe(b: &CommandBuilder<'_>, have_pending_command: bool, result: &CommandResult) {
+    OBSERVER.with(|c| {
+        if let Some(o) = c.borrow_mut().as_mut() {
+            o(Snapshot {
+                limiters: b.limiters.limiters.iter().map(|l| l.verif_state()).collect(),
+                extra_arg_lens: b.extra_args.iter().map(|a| a.len()).collect(),
+                have_pending_command,
+                failed: matches!(result, CommandResult::Failure),
+            });
+        }
+    });
+}
